@@ -593,7 +593,7 @@ Theorem verifies_sound : forall pk c subj, verifies pk c subj = true ->
   c_signer c = pk /\ d_subj (c_digest c) = subj /\ d_type (c_digest c) = c_type c /\ d_created (c_digest c) = c_created c
   /\ d_issuer (c_digest c) = c_issuer c /\ d_info (c_digest c) = c_info c.
 Proof.
-  intros pk c subj H. unfold verifies, digest_eqb, hashdata in H. simpl in H.
+  intros pk c subj H. unfold verifies, digest_eqb, hashdata in H. cbn [d_subj d_type d_created d_exp d_primary d_info d_issuer] in H.
   repeat (apply andb_true_iff in H; destruct H as [H ?]).
   repeat split; try (apply Z.eqb_eq; assumption).
   - apply subject_eqb_eq. assumption.
